@@ -407,4 +407,5 @@ func c06Det(c *Ctx) {
 		"(random densities, constant, stripes, rectangles crossing the borders, frames, whole and border-clipped finder patterns, bull's eyes, rendered symbols scaled/rotated/mirrored/cropped/noisy) " +
 		"compared with the Lean models Gzx.Det.* (found points, NotFound, PANIC) and judged by the oracle (no panic, result xor NotFound)"
 	c06detWRDSuite(c)
+	c06detQRSuite(c)
 }
